@@ -85,8 +85,8 @@ PROPS = {
     'C06': dict(
         title='no panic / overflow / non-termination in the core',
         obligations=['allexec', 'clausere:#small$', 'clausere:#wf$', 'fn:lemma_c06_rwf_closed', 'fn:reach_bs_wf', 'fn:reach_overlap', 'mod:m_bound_spec', 'mod:m_range_spec', 'mod:m_order'],
-        assumptions=[STD, 'Range::parse, Display for Range / BoundSet beyond reachability of unreachable!, miette, location(): not under contract', 'Display for Identifier / VersionDiff / Version: ' + FMT, 'Version::parse and the version grammar are under contract over the assumed winnow contracts: ' + WINNOW, 'representation invariant rwf / wf_partial / component bounds as preconditions (established by every constructor under contract)'],
-        not_decided=['every string through Range::parse (Version::parse: no panic for any string is an obligation, the construction of the returned error is not)', 'error accessors and diagnostics', 'roughly linear time (no cost model)'],
+        assumptions=[STD, 'Display for Range / BoundSet beyond reachability of unreachable!, miette, location() and the construction of the returned errors: not under contract', 'Display for Identifier / VersionDiff / Version: ' + FMT, 'Version::parse, Range::parse and every function of the two grammars are under contract over the assumed winnow contracts (no panic, no overflow, no failed winnow assertion for any input string): ' + WINNOW, 'representation invariant rwf / wf_partial / component bounds as preconditions (established by every constructor under contract)'],
+        not_decided=['the construction of the error a failed parse returns (char_indices, pointer difference) and its accessors: bounded stand-in only', 'error accessors and diagnostics', 'roughly linear time (no cost model)'],
         witness='c06',
     ),
     'C07': dict(
@@ -157,6 +157,6 @@ PROPS = {
 }
 
 NOT_APPLICABLE = {
-    'C13': 'print -> parse round trip of Range: same text layer (Display shapes vs primitive parser); only "Display for BoundSet never hits unreachable! on a well formed interval" is decided, under C06',
+    'C13': 'print -> parse round trip of Range: since session 4 both ends are within reach (the whole range grammar is under contract over the assumed winnow contracts; Display for BoundSet / Range is extracted), but the write! model is not applied to those two functions and the lemma chain per interval shape (printed text -> reference reader -> same interval) is not built; only "Display for BoundSet never hits unreachable! on a well formed interval" is decided, under C06',
     'C17': 'error input()/offset()/location() depend on where winnow leaves the input on failure, on str slicing and a pointer difference; error kinds on which combinator fails first; none expressible as a contract on code either tool can read',
 }
